@@ -67,7 +67,7 @@ func HFlistDecode() {
 		vassume(e.Length >= 0)
 		e.Mtime = nd_i32()
 		if lean {
-			e.Mode = int32(nd_u16())&0o777 | []int32{0o100000, 0o120000, 0o020000}[nd_range(0, 2)]
+			e.Mode = int32(nd_u16())&0o777 | []int32{0o100000, 0o120000, 0o020000, 0o040000}[nd_range(0, 3)]
 		} else {
 			c.LongName = nd_bool()
 			c.LongForm = nd_bool()
